@@ -22,6 +22,9 @@ it is given, `Apply` waits on `fetchCh`) is the last section: `timedLookup`, `fe
 arrives, and the stage after which the lookup's context is cancelled (`bodyCancelAfter`: in
 `msgpipelineDelivery.Body` / `checkBody` the context is the one of `Body`; the only cancellation is
 `Verifier.Close` in `checkRunner.close`, after `applyResults`).
+How the verdicts of the checks reach `applyResults` (`check_runner.go: runAndMergeResults`, called from
+`checkStates`, `checkRcpt`, `checkBody`) is the section after that: `CheckRes`, `mergedResults`,
+`mergedQuarantine`, `pipelineChecks`.
 Strings are lists of code points.  Core Lean only.
 -/
 namespace MaddyVerif.Dmarc
@@ -332,5 +335,58 @@ def pipelineBodyWith (cancelAfter : Option Nat) (P : Prims) (dns : Str → Looku
 def pipelineBody (P : Prims) (dns : Str → Lookup) (arrive : Str → Nat)
     (hdr : List FieldParse) (blocks : List (List AuthRes)) (rnd : Nat) (priorQ : Bool) : Reply :=
   pipelineBodyWith bodyCancelAfter P dns arrive hdr blocks rnd priorQ
+
+/-! ### How the verdicts of the checks reach `applyResults`: `checkRunner.runAndMergeResults`
+
+Every call of `runAndMergeResults` (from `checkStates` for the connection and sender stages of
+newly created states, from `checkRcpt`, from `checkBody`) appends `AuthResult` of every
+`module.CheckResult` it collects to `mergedRes.AuthResult` and sets `mergedRes.Quarantine` when a
+result has `Quarantine` - whether or not a `Reason` is attached and whether or not header fields
+come along.  A result with a `Reason` and neither flag ("action ignore"; what `check.spf` returns
+when it leaves the decision to DMARC) is merged like any other and the reason is logged.  (A result
+with `Reject` ends the command with the check's own reply before `applyResults` runs; outside this
+model.) -/
+
+inductive Stage | conn | sender | rcpt | body
+deriving DecidableEq, Repr
+
+/-- What the check of a block hands back and at which stage.  `block`: 0 global, 1 source,
+2 recipient.  `reason`: a `Reason` is attached; `header`: header fields are attached; `again`: the
+later blocks reference the same check object (`checkStates` finds its state; `checkRcptOnce` and
+`checkedBodyPerCheck` repeat its decision - the flags - without results and header fields). -/
+structure CheckRes where
+  block : Nat
+  stage : Stage
+  results : List AuthRes
+  reason : Bool
+  quarantine : Bool
+  header : Bool
+  again : Bool
+deriving Repr
+
+/-- The command during which the check's result is merged: 0 = MAIL FROM (`Start`: connection and
+sender stage of the global and source checks), 1 = RCPT TO (`AddRcpt`: recipient stage of the
+global and source checks, then - the states of the recipient block being created only now - all
+three early stages of the recipient checks), 2 = the message (`Body`/`BodyNonAtomic`). -/
+def CheckRes.phase (c : CheckRes) : Nat :=
+  match c.stage with
+  | .body => 2
+  | .rcpt => 1
+  | _ => if c.block < 2 then 0 else 1
+
+/-- `mergedRes.AuthResult` when `applyResults` runs, for the checks `cs` given in block order (one
+result-reporting check per block): command by command, within a command in block order.  Reads
+neither `reason` nor `header` nor `again` nor the flags. -/
+def mergedResults (cs : List CheckRes) : List (List AuthRes) :=
+  [0, 1, 2].flatMap fun ph => (cs.filter (fun c => c.phase == ph)).map (·.results)
+
+/-- `mergedRes.Quarantine` when `applyResults` runs (`flagged`: set by some other check). -/
+def mergedQuarantine (flagged : Bool) (cs : List CheckRes) : Bool :=
+  flagged || cs.any (·.quarantine)
+
+/-- `pipelineBody` fed with what the checks handed over. -/
+def pipelineChecks (P : Prims) (dns : Str → Lookup) (arrive : Str → Nat)
+    (hdr : List FieldParse) (cs : List CheckRes) (rnd : Nat) (flagged : Bool) : Reply :=
+  pipelineBody P dns arrive hdr (mergedResults cs) rnd (mergedQuarantine flagged cs)
 
 end MaddyVerif.Dmarc
